@@ -736,3 +736,47 @@ def rf77(run):
     if n == 0:
         raise F.AnalysisBroken('target_change_to_direct_calls: no _MIR_change_code call')
     return n
+
+
+# ---------------------------------------------------------------------------------------------
+# RF101: the flag-clobbering form of `mov r, 0` is not chosen while overflow flags are live
+# ---------------------------------------------------------------------------------------------
+
+def rf101(run):
+    from lib import enumflow as EF
+    rule = 'RF101'
+    run.rule(rule, 'x86-64 pattern_match_p: the operand class `z` selects `xor r,r` for `mov r, 0`; xor rewrites OF/CF, and MIR allows '
+                   'register moves between an overflow producer and its BO/BNO/UBO/UBNO.  The `z` case scans the following '
+                   'instructions and rejects the pattern, by evaluation over the four branch opcodes, when such a branch is reached '
+                   'through moves only')
+    tu = run.tu('gen')
+    f = tu.func('pattern_match_p')
+    run.functions_analysed.add(('gen', f.name))
+    sws = [s_ for s_ in R.find_switches(f)]
+    reg = None
+    for sw in sws:
+        for r in R.switch_regions(f, sw):
+            if any(lo == ord('z') for (nm, lo, hi) in r['cases'] if lo is not None):
+                reg = r
+    if reg is None:
+        raise F.AnalysisBroken('pattern_match_p: case \'z\' not found')
+    preds = EF.Predicates(tu)
+    codes = dict(tu.enum('MIR_insn_code_t'))
+    loops = [x for st in reg['stmts'] for x in F.walk(st) if x['k'] == 'ForStmt']
+    n = 0
+    for nm in ('MIR_BO', 'MIR_BNO', 'MIR_UBO', 'MIR_UBNO'):
+        rejected = False
+        for l in loops:
+            for x in F.walk(l['c'][3]):
+                if x['k'] == 'IfStmt' and any(y['k'] == 'ReturnStmt' and F.kids(y) and F.const_value(F.kids(y)[0]) == 0 for y in F.walk(x['c'][1])):
+                    keys = sorted({F.src(y) for y in F.walk(x['c'][0]) if y['k'] == 'MemberExpr' and y['n'] == 'code'})
+                    v = preds.eval(x['c'][0], {k_: codes[nm] for k_ in keys}, frozenset())
+                    if v:
+                        rejected = True
+        n += 1
+        run.ob(rule, (nm,), rejected, {'branch': nm, 'xor form rejected when it follows through moves': rejected})
+        if not rejected:
+            run.violation(rule, f, 'xor in front of %s' % nm, 'the `z` operand class (mov r, 0 emitted as xor) is accepted although a %s can follow '
+                          'through register moves: `addo r, a, b; mov r2, 0; bo L` loses the overflow flag in generated code' % nm,
+                          line=reg['stmts'][0]['l'] if reg['stmts'] else f.line)
+    return n
